@@ -259,7 +259,7 @@ pub fn builtin_aliases() -> Vec<(&'static str, Ty)> {
         ("Ctx8", Ty::Tuple(vec![Ty::list(u(8), 64), Ty::Tuple(vec![u(64), u(256)])])),
         ("Distance", u(16)),
         ("Duration", u(16)),
-        ("ExplicitAmount", u(256)),
+        ("ExplicitAmount", u(64)), // the book's table says u256; the explicit part of Amount1 and total_fee are 64 bit (doc typo, see DESIGN appendix B)
         ("ExplicitAsset", u(256)),
         ("ExplicitNonce", u(256)),
         ("Fe", u(256)),
